@@ -273,6 +273,99 @@ pub fn explore(opts: &Opts) -> Explored {
             }
         }
     }
+    // one array listed twice (through a clone of its handle: tied parameters), at every pair of positions
+    // of lists of 2-4 parameters: every *other* parameter must still be combined with its own gradient
+    // only; for the tied pair the statement allows either handle to take the step
+    {
+        let l = &mut local;
+        let dims_pool: Vec<Vec<usize>> = vec![vec![2], vec![3], vec![2, 2], vec![1, 3]];
+        for len in 2..=4usize {
+            for first in 0..len {
+                for second in first + 1..len {
+                    for gmask in 0u32..(1 << len) {
+                        let case = || format!("tied parameters: list of {} with position {} a clone of position {}, gradients on {:0w$b}", len, second, first, gmask, w = len);
+                        if !l.want(&case) {
+                            continue;
+                        }
+                        l.states += 1;
+                        l.transitions += 1;
+                        l.validated += 1;
+                        let dims_pool = dims_pool.clone();
+                        let r = run_catch(move || {
+                            let mut msgs: Vec<String> = Vec::new();
+                            let mut params: Vec<Array> = Vec::new();
+                            for k in 0..len {
+                                if k == second {
+                                    let c = params[first].clone();
+                                    params.push(c);
+                                } else {
+                                    let d = &dims_pool[k % dims_pool.len()];
+                                    params.push(Array::from((d.clone(), fl(&vals_signed(numel(d), k, var)))).tracked());
+                                }
+                            }
+                            for k in 0..len {
+                                if k != second && gmask & (1 << k) != 0 {
+                                    let d = params[k].dimensions().to_vec();
+                                    *params[k].gradient_mut() = Some(Array::from((d.clone(), fl(&vals(numel(&d), k + 5, var)))));
+                                }
+                            }
+                            let before: Vec<Snap> = params.iter().map(snap).collect();
+                            let gd = GradientDescent::new(0.5);
+                            gd.update(params.iter_mut().collect());
+                            let after: Vec<Snap> = params.iter().map(snap).collect();
+                            for k in 0..len {
+                                let (b, a) = (&before[k], &after[k]);
+                                let stepped = |g: &Vec<Float>| -> bool { a.dims == b.dims && a.vals.len() == b.vals.len() && a.vals.iter().zip(b.vals.iter().zip(g)).all(|(x, (o, gg))| *x == *o - 0.5 * *gg) };
+                                let untouched = a.dims == b.dims && a.vals.iter().zip(&b.vals).all(|(x, y)| x.to_bits() == y.to_bits());
+                                if k == first || k == second {
+                                    let ok = match &b.grad {
+                                        None => untouched,
+                                        Some(g) => stepped(g) || untouched,
+                                    };
+                                    if !ok {
+                                        msgs.push(format!("tied parameter at position {} is neither untouched nor stepped by its own gradient: {} -> {}", k, fmt_vals(&b.vals), fmt_vals(&a.vals)));
+                                    }
+                                    if k == second {
+                                        if let Some(g) = &b.grad {
+                                            if !stepped(g) && !{ let f = &after[first]; f.vals.iter().zip(before[first].vals.iter().zip(g)).all(|(x, (o, gg))| *x == *o - 0.5 * *gg) } {
+                                                msgs.push("neither handle of the tied parameter took the step of its gradient".to_string());
+                                            }
+                                        }
+                                    }
+                                } else {
+                                    match &b.grad {
+                                        None => {
+                                            if !untouched || a.tracked != b.tracked {
+                                                msgs.push(format!("parameter {} without a gradient was changed: {} -> {}", k, fmt_vals(&b.vals), fmt_vals(&a.vals)));
+                                            }
+                                        }
+                                        Some(g) => {
+                                            if !stepped(g) {
+                                                msgs.push(format!("parameter {} is {} but old - lr*g = {:?} (old {}, gradient {})", k, fmt_vals(&a.vals), b.vals.iter().zip(g).map(|(o, gg)| *o - 0.5 * *gg).collect::<Vec<Float>>(), fmt_vals(&b.vals), fmt_vals(g)));
+                                            }
+                                            if a.grad.is_some() {
+                                                msgs.push(format!("updated parameter {} still holds a gradient", k));
+                                            }
+                                        }
+                                    }
+                                }
+                            }
+                            msgs
+                        });
+                        match r {
+                            Err(m) => l.violation("update-tied", case(), format!("panicked: {}", m)),
+                            Ok(msgs) => {
+                                l.outcome(digest_str(&format!("{}{}", case(), msgs.len())));
+                                if !msgs.is_empty() {
+                                    l.violation("update-tied", case(), msgs.join("; "));
+                                }
+                            }
+                        }
+                    }
+                }
+            }
+        }
+    }
     // the same through Model::update: every sequence of forward / backward / update calls of length <= 4
     // (thorough 5) that ends in an update, on models whose parameters may already hold gradients
     // before the model's first call; the last update must step exactly the parameters that hold a
